@@ -43,6 +43,8 @@ class UMNDirHandler(DirHandler):
         """Override parent to do a few more things and override sort order."""
         # Initialize.
         self.linkentries = []
+        # Selectors of the files their .cap file keeps out of the listing.
+        self.capdropped = set()
 
         # Let the parent do the directory walking for us.  Will call
         # prep_initfiles_canaddfile and prep_entriesappend.
@@ -102,6 +104,7 @@ class UMNDirHandler(DirHandler):
             capinfo = self.processLinkFile(capfilename, fileentry.getselector())
             if len(capinfo) >= 1:  # We handle one and only one entry.
                 if capinfo[0].gettype() == "X" or capinfo[0].gettype() == "-":
+                    self.capdropped.add(fileentry.getselector())
                     return  # Type X -- don't append.
                 else:
                     self.mergeentries(fileentry, capinfo[0])
@@ -135,6 +138,13 @@ class UMNDirHandler(DirHandler):
                 else:
                     self.mergeentries(fileentriesdict[linkentry.selector], linkentry)
             else:
+                if linkentry.selector in self.capdropped or (
+                    linkentry.gettype() == "X" or linkentry.gettype() == "-"
+                ):
+                    # The file was hidden by its .cap file and stays hidden,
+                    # or this is a hide block for a file that is not listed:
+                    # either way there is nothing to add.
+                    continue
                 self.fileentries.append(linkentry)
 
     def mergeentries(self, old: GopherEntry, new: GopherEntry) -> None:
